@@ -223,7 +223,11 @@ Upd(g, o, ln, o2) ==
                    THEN LET wr == WOfPid(o2, p) IN
                         [open |-> TRUE, sig |-> lastSig1[p][1], t0 |-> lastSig1[p][2],
                          G |-> IF g.ctx.on /\ g.ctx.cmd = "kill" /\ g.ctx.G >= 0 THEN g.ctx.G ELSE wr.G,
-                         killed |-> FALSE, kids |-> IF wr.sch THEN ChildrenOf(o, p) ELSE {}]
+                         killed |-> FALSE,
+                         \* the worker's children when the termination began (by original parent: a parent that
+                         \* has already exited no longer "has" them in the kernel table)
+                         kids |-> IF wr.sch THEN { c \in 1..NK(o) : c \in 1..Len(g.par0) /\ g.par0[c] = p /\ KSt(o, c) = "run" }
+                                  ELSE {}]
                    ELSE IF p \in ends THEN [term0[p] EXCEPT !.open = FALSE]
                    ELSE IF ln.k = "signal" /\ ln.p = p /\ ln.a = SIGKILL /\ term0[p].open
                         THEN [term0[p] EXCEPT !.killed = TRUE]
@@ -490,6 +494,11 @@ C10_refuse(g, o, ln, o2) ==
             /\ o2.slot = g.snapslot              \* ... and the operation in flight keeps the slot
             /\ \/ ln.r = "error"
                \/ (g.ctx.cmd \in {"incr", "decr"} /\ HasWL(o, g.ctx.lname) /\ WL(o, g.ctx.lname).sing)
+\* state-changing work happens only under the slot: a spawn, or a watcher changing status, while the slot is
+\* free means an operation is running unserialized (workers forgotten by D3 and on-demand watchers excepted)
+StChanged(o, o2) == { i \in WIdx(o2) : \E j \in WIdx(o) : o.w[j].ln = o2.w[i].ln /\ o.w[j].st # o2.w[i].st /\ ~o2.w[i].od }
+C10_held(o, ln, o2) ==
+   (ln.k = "spawn" \/ StChanged(o, o2) # {}) => (o.slot # "" \/ o2.slot # "")
 C10_accept(ln) == (ln.k = "reply" /\ ln.w = "xprobe") => ln.r = "ok"
 
 \* ---------------- C11: a request refused as invalid or conflicting changes nothing
@@ -614,7 +623,7 @@ Clauses(g, o, ln, o2, g2) ==
     C08_done |-> C08_done(g2, o2, ln),
     C09_spawn |-> C09_spawn(g, ln), C09_reap |-> C09_reap(g, o, ln), C09_live |-> C09_live(g2, o2, ln),
     C09_startstop |-> C09_startstop(g, o2, ln),
-    C10_wedge |-> C10_wedge(o2, ln), C10_refuse |-> C10_refuse(g, o, ln, o2), C10_accept |-> C10_accept(ln),
+    C10_wedge |-> C10_wedge(o2, ln), C10_refuse |-> C10_refuse(g, o, ln, o2), C10_accept |-> C10_accept(ln), C10_held |-> C10_held(o, ln, o2),
     C11_unchanged |-> C11_unchanged(g, ln, o2),
     C13_wid |-> C13_wid(o, o2),
     C14_startgate |-> C14_startgate(g, o, o2), C14_siggate |-> C14_siggate(g, ln),
@@ -674,6 +683,10 @@ KF(c, g, o, ln, o2, g2) ==
                /\ SeqToSet(ln.pb.per[j].pids) \subseteq Mine(g2, o2, ln.pb.per[j].n)
                /\ (Mine(g2, o2, ln.pb.per[j].n) \ SeqToSet(ln.pb.per[j].pids)) \subseteq (g2.detached \ AllTracked(o2))
          THEN "D3" ELSE ""
+    [] c = "C03_kids" ->      \* D17: the worker had already exited when its children were looked up again
+         IF \A p \in StopFlips(o, o2) :
+               (\E kid \in g2.term[p].kids : <<kid, g2.term[p].sig>> \notin g.csigs) => KSt(o2, p) # "run"
+         THEN "D17" ELSE ""
     [] c = "C03_prompt" ->
          IF \A p \in 1..Len(g.term) :
                (g.term[p].open /\ ~g.term[p].killed /\ KSt(o, p) = "run" /\ g.term[p].sig # SIGKILL
